@@ -19,38 +19,57 @@ import (
 func round4(c *Ctx) {
 	switch c.Prop {
 	case "C01":
+		r5StructLayouts(c)
 		r4NearMissKeys(c)
 		r4TaggedStructs(c)
+		r5RecasedKeysInKeyedMaps(c)
+		r5MixedObjectCarriers(c)
 	case "C04":
+		r5DeepCarriers(c)
 		r4LocalTypes(c, []string{"$.one.a.Add(1)", "$.two.pad.Subtract($.two.a)", "$.two.a.Subtract($.two.pad)", "$.one.Sum()", "$.two.Sum()", "$.mix.First().Sum()", "$.mix.Last().a.Multiply(2)",
 			"$.two.pad.Divide($.two.a)", "$.one.a.Modulo(3)", "$.two.Maximum()", "$.one.Minimum()", "$.two.Average()", "$.mix.a.Sum()"})
 	case "C05":
+		r5DeepCarriers(c)
 		r4CloseNumbers(c)
 	case "C06":
+		r5BareAtQueries(c)
+		r5DeepCarriers(c)
 		r4TaggedStructs(c)
 	case "C07":
+		r5DeepCarriers(c)
 		r4Cyclic(c)
 		r4LocalTypes(c, []string{"$.one.k", "$.two.k", "$.one.IsEmpty()", "$.two.Sum()", "$.one.Sum()"})
 	case "C10":
 		r4TaggedStructs(c)
 		r4FullFolding(c)
+		r5RecasedKeysInKeyedMaps(c)
+		r5MixedObjectCarriers(c)
+		r5TextBehindPointers(c)
 	case "C11":
+		r5DeepCarriers(c)
 		r4Purity(c)
 		r4RegexHistory(c)
 	case "C17":
+		r5DeepCarriers(c)
 		r4ScaledIndexes(c)
 		r4SelectFromData(c)
 	case "C18":
+		r5AtArguments(c)
+		r5DeepCarriers(c)
 		r4CombiningMarks(c)
 		r4RegexHistory(c)
 		r4ScaledCounts(c)
 	case "C19":
+		r5StructLayouts(c)
+		r5DeepCarriers(c)
 		r4NonASCIIMarkedKeys(c)
 		// a key that one of two same-named struct types lacks and the other has: asked of the one that lacks it first, and the other way round
 		r4LocalTypes(c, []string{"$.one.pad?.IsNull()", "$.two.pad?.IsNull()", "$.two.pad?.IsNotNull()", "$.two.a?.IsNull()", "$.one.a?.IsNull()", "$.one.a?.IsNotNull()", "$.one.pad", "$.two.pad", "$.two.a", "$.one.a",
 			"$.mix.pad", "$.mix.a", "$.mix[@.pad?.IsNull()].Count()", "$.mix[@.a?.IsNotNull()].Count()"})
 	case "C02", "C03":
+		r5DeepCarriers(c)
 		r4RootGroupsAcrossDocuments(c)
+		r5FiltersOnSingleObjects(c)
 	}
 }
 
@@ -365,5 +384,157 @@ func r4RootGroupsAcrossDocuments(c *Ctx) {
 				c.Do(Case{Q: q, D: d, Cls: "round4/root-groups-across-documents", InDomain: true})
 			}
 		}
+	}
+}
+
+// round 5 -------------------------------------------------------------------------------------------------------------------------
+
+// keys written in another letter case against maps whose key type is a named string type, or `any` holding named strings / strings
+func r5RecasedKeysInKeyedMaps(c *Ctx) {
+	doc := dObj("customer", dObj("city", dStr("Perth"), "zip", dNum("6000"), "Name", dStr("ann")), "Items", dArr(dObj("sku", dStr("a"), "qty", dNum("1")), dObj("SKU", dStr("b"), "qty", dNum("2"))), "n", dNum("3"))
+	qs := []string{"$.customer.city", "$.Customer.City", "$.CUSTOMER.city", "$.customer.CITY", "$.customer.name", "$.customer.NAME", "$.items.sku", "$.ITEMS.Sku", "$.Items[@.QTY.Greater(1)].sku", "$.items.First().Sku",
+		`$.Items.Select("$.Qty")`, "$.N.Add(1)", "$.customer.zip.Equal(6000)", "$.Customer.Zip", "$.customer.nosuch", "$.CUSTOMER.Nosuch?.IsNull()"}
+	styles := []Style{{Obj: "map", Num: "f64"}, {Obj: "nmap", Num: "f64"}, {Obj: "imap", Num: "f64"}, {Obj: "inmap", Num: "f64"}, {Obj: "struct", Num: "f64"}}
+	var names []string
+	var ds []*TV
+	for i := range styles {
+		names = append(names, styles[i].Obj)
+		ds = append(ds, render(doc, &styles[i]))
+	}
+	for _, q := range qs {
+		c.sameAcross(q, names, ds, "round5/recased-keys-in-keyed-maps")
+	}
+}
+
+// a list whose objects are carried differently from one another (a map, a struct, a pointer to a struct, a map behind `any`): a key
+// stepped across it collects from every element that has it
+func r5MixedObjectCarriers(c *Ctx) {
+	m := func(name string, n float64) *TV {
+		return tvMap("str", [][2]any{kv("name", tvStr(name)), kv("n", tvF64(n))})
+	}
+	st := func(name string, n float64) *TV {
+		return tvStruct([][3]any{{"Name", 1, tvStr(name)}, {"N", 1, tvF64(n)}})
+	}
+	lists := map[string]*TV{
+		"map-struct-ptr":    tvSlice(1, m("a", 1), st("b", 2), tvPtr(st("c", 3))),
+		"struct-map-map":    tvSlice(1, st("a", 1), m("b", 2), m("c", 3)),
+		"ptr-map-struct":    tvSlice(1, tvPtr(st("a", 1)), m("b", 2), st("c", 3)),
+		"map-only-later":    tvSlice(1, tvMap("str", [][2]any{kv("other", tvF64(0))}), st("b", 2), tvPtr(st("c", 3))),
+		"struct-only-later": tvSlice(1, tvStruct([][3]any{{"Other", 1, tvF64(0)}}), m("b", 2), m("c", 3)),
+		"all-maps":          tvSlice(1, m("a", 1), m("b", 2), m("c", 3)),
+	}
+	for _, nm := range []string{"all-maps", "map-struct-ptr", "struct-map-map", "ptr-map-struct", "map-only-later", "struct-only-later"} {
+		d := tvMap("str", [][2]any{kv("items", lists[nm])})
+		for _, q := range []string{"$.items.name", "$.items.n", "$.items.n.Sum()", "$.items.name.Count()", "$.items[@.n.Greater(1)].name", `$.items.Select("$.name")`, "$.items.Last().name", "$.items.NAME"} {
+			c.Do(Case{Q: q, D: d, Cls: "round5/mixed-object-carriers/" + nm, InDomain: true})
+		}
+	}
+}
+
+// text that reads as a number, held behind a pointer, is text (C10: the bare value of a key does not depend on the carrier)
+func r5TextBehindPointers(c *Ctx) {
+	vals := []string{"0012", "1e3", "-3.5", "12", "abc", ""}
+	for _, v := range vals {
+		plain := tvMap("str", [][2]any{kv("code", tvStr(v)), kv("items", tvSlice(1, tvMap("str", [][2]any{kv("ref", tvStr(v))}), tvMap("str", [][2]any{kv("ref", tvStr("x"))})))})
+		ptrs := tvMap("str", [][2]any{kv("code", tvPtr(tvStr(v))), kv("items", tvSlice(1, tvMap("str", [][2]any{kv("ref", tvPtr(tvStr(v)))}), tvMap("str", [][2]any{kv("ref", tvPtr(tvStr("x")))})))})
+		strct := tvStruct([][3]any{{"Code", 1, tvPtr(tvStr(v))}, {"Items", 1, tvSlice(1, tvStruct([][3]any{{"Ref", 1, tvPtr(tvStr(v))}}), tvStruct([][3]any{{"Ref", 1, tvPtr(tvNStr("x"))}}))}})
+		named := tvMap("str", [][2]any{kv("code", tvPtr(tvNStr(v))), kv("items", tvSlice(1, tvMap("str", [][2]any{kv("ref", tvNStr(v))}), tvMap("str", [][2]any{kv("ref", tvStr("x"))})))})
+		for _, q := range []string{"$.code", "$.items.ref", "$.items.First().ref", "$.items[@.ref.IsNotNull()].ref", `$.items.Select("$.ref")`} {
+			c.sameAcross(q, []string{"plain", "pointers", "struct-with-pointer-fields", "named-behind-pointer"}, []*TV{plain, ptrs, strct, named}, "round5/text-behind-pointers")
+		}
+	}
+}
+
+// a filter applied to a single object: `$` inside its body (in a nested group or an argument) is the data the whole query was given,
+// `@` the object
+func r5FiltersOnSingleObjects(c *Ctx) {
+	mk := func(enabled bool, wanted, n float64, paid bool, inner bool) *TV {
+		return tvMap("str", [][2]any{kv("enabled", tvBool(enabled)), kv("wanted", tvF64(wanted)), kv("limit", tvF64(wanted)),
+			kv("order", tvMap("str", [][2]any{kv("paid", tvBool(paid)), kv("n", tvF64(n)), kv("enabled", tvBool(inner)), kv("limit", tvF64(99))})),
+			kv("rec", tvStruct([][3]any{{"Paid", 1, tvBool(paid)}, {"N", 1, tvF64(n)}})), kv("list", tvSlice(1, tvMap("str", [][2]any{kv("paid", tvBool(paid)), kv("n", tvF64(n))})))})
+	}
+	for _, d := range []*TV{mk(true, 3, 3, true, false), mk(false, 3, 3, true, true), mk(true, 2, 3, false, true), mk(false, 5, 5, false, false)} {
+		for _, q := range []string{"$.order[AND,{$.enabled},@.paid]", "$.order[@.paid.Equal({$.enabled})]", "$.order[@.n.Equal($.wanted)]", "$.order[@.n.Equal($.limit)]", "$.order[OR,{$.enabled},@.paid]", "$.order[{$.enabled}]",
+			"$.rec[@.n.Equal($.wanted)]", "$.rec[AND,{$.enabled},@.paid]", "$.list[@.n.Equal($.wanted)]", "$.list[AND,{$.enabled},@.paid]", "$.order[@.n.Equal($.order.n)]", "$.order[@.limit.Greater($.limit)]",
+			"{$.order[{$.enabled}].IsNotNull()}", "$.order[@.paid][@.n.Equal($.wanted)]"} {
+			c.Do(Case{Q: q, D: d, Cls: "round5/filters-on-single-objects", InDomain: !strings.Contains(q, "][")})
+		}
+	}
+}
+
+// values held behind two pointers, behind a pointer to an interface variable (*any), and behind both: numbers, texts, booleans,
+// lists - as receivers, as arguments, as operands of groups and conditions of filters
+func r5DeepCarriers(c *Ctx) {
+	wraps := []struct {
+		name string
+		w    func(*TV) *TV
+	}{{"plain", func(t *TV) *TV { return t }}, {"ptr", tvPtr}, {"ptr-ptr", func(t *TV) *TV { return tvPtr(tvPtr(t)) }}, {"ptr-any", tvPtrAny},
+		{"ptr-ptr-any", func(t *TV) *TV { return tvPtr(tvPtrAny(t)) }}, {"ptr-any-ptr", func(t *TV) *TV { return tvPtrAny(tvPtr(t)) }}}
+	qs := []string{"$.n.Equal(10)", "$.n.Less(10.5)", "$.n.Greater($.m)", "$.m.Equal($.n)", "$.n.AnyOf(3,$.m,10)", "$.n.Add($.m)", "$.n", "$.m.NotEqual($.n)", "$.ns.Sum()", "$.ns.First()", "$.n.LessOrEqual($.ns.Last())",
+		"{AND,$.yes}", "{OR,$.no,$.yes}", "$.yes.Equal({OR,$.no,$.yes})", "$.rows[@.ok]", "$.rows[@.ok.Equal($.yes)].Count()", "{$.yes,$.no}", "$.no.Not()",
+		`$.s.Prefix("he")`, `$.s.Contains($.p)`, "$.s.Left(2)", `$.s.ReplaceAll($.p,"X")`, `$.s.Suffix(@.Right(2))`, "$.s.IsEmpty()", "$.s", "$.p.IsNull()", `$.s.Equal("hello")`, "$.s.Equal($.s)",
+		"$.o.k", "$.o.k.Add(1)", "$.rows.ok", "$.rows.Count()", "$.o.IsEmpty()", "$.nothing?.IsNull()", "$.n.IsNull()", "$.yes.IsEmpty()"}
+	plain := map[string]string{}
+	for _, w := range wraps {
+		d := tvMap("str", [][2]any{kv("n", w.w(tvInt("int", "10"))), kv("m", w.w(tvF64(2.5))), kv("ns", w.w(tvSlice(1, w.w(tvF64(1)), w.w(tvInt("int64", "12"))))),
+			kv("yes", w.w(tvBool(true))), kv("no", w.w(tvBool(false))), kv("rows", tvSlice(1, tvMap("str", [][2]any{kv("ok", w.w(tvBool(true)))}), tvMap("str", [][2]any{kv("ok", w.w(tvBool(false)))}))),
+			kv("s", w.w(tvStr("hello"))), kv("p", w.w(tvStr("ll"))), kv("o", w.w(tvMap("str", [][2]any{kv("k", w.w(tvF64(7)))})))})
+		for _, q := range qs {
+			o := c.Do(Case{Q: q, D: d, Cls: "round5/deep-carriers/" + w.name, InDomain: true})
+			got := o.Class
+			if o.Class == "ok" {
+				got = o.Logical
+			}
+			if w.name == "plain" {
+				plain[q] = got
+				continue
+			}
+			// pointers to interface variables are outside the model's values: what a function answers about a number, a truth value or a
+			// text behind one is what it answers about the value itself
+			if strings.Contains(w.name, "any") && (strings.HasSuffix(q, ")") || strings.HasSuffix(q, "}")) && !strings.HasPrefix(q, "$.o.") && got != plain[q] {
+				c.addViolation(Violation{Kind: "carrier-dependence", Query: q, QueryHex: hx(q), Data: d, Expected: trunc(plain[q], 300), Got: trunc(got, 300), Cls: "round5/deep-carriers/" + w.name,
+					Why: "the values behind pointers to interface variables give another answer than the values themselves", Key: "carrier:round5/deep-carriers/" + w.name + ":" + lastFunc(q)})
+			}
+		}
+		st := tvStruct([][3]any{{"N", 1, w.w(tvInt("int", "10"))}, {"M", 1, w.w(tvF64(2.5))}, {"Yes", 1, w.w(tvBool(true))}, {"No", 1, w.w(tvBool(false))}, {"S", 1, w.w(tvStr("hello"))}, {"P", 1, w.w(tvStr("ll"))}})
+		for _, q := range []string{"$.n.Equal(10)", "$.n.Less($.m)", "$.m.Equal($.n)", "{OR,$.no,$.yes}", `$.s.Contains($.p)`, "$.s.Left(2)", "$.n", "$.s", "$.yes"} {
+			c.Do(Case{Q: q, D: st, Cls: "round5/deep-carriers/struct/" + w.name, InDomain: true})
+		}
+	}
+}
+
+// the document itself addressed by a bare `@` (at the top level it is the document, like `$`): a number comes back as a decimal
+func r5BareAtQueries(c *Ctx) {
+	for _, d := range []*TV{tvInt("uint64", "18446744073709551615"), tvInt("int8", "-128"), tvInt("int", "42"), tvF64(2.5), tvF32(0.1, 2), tvSInt("int64", "1500"), tvPtr(tvInt("uint64", "9223372036854775808")),
+		tvPtr(tvF64(-0.75)), &TV{T: "int", K: "int64", N: 1, V: "7"}, tvDec(decimal.RequireFromString("12.50")), tvStr("abc"), tvBool(true), tvNil()} {
+		for _, q := range []string{"@", " @ ", "$", "@.Add(0)", "{@.IsNotNull()}"} {
+			c.Do(Case{Q: q, D: d, Cls: "round5/bare-at-queries", InDomain: true})
+		}
+	}
+}
+
+// `@` in an argument is the value the function is applied to (not the document)
+func r5AtArguments(c *Ctx) {
+	d := tvMap("str", [][2]any{kv("s", tvStr("hello")), kv("t", tvStr("lo")), kv("xs", tvSlice(1, tvMap("str", [][2]any{kv("s", tvStr("abcab")), kv("p", tvStr("ab"))}), tvMap("str", [][2]any{kv("s", tvStr("xyz")), kv("p", tvStr("z"))})))})
+	for _, q := range []string{`$.s.Suffix(@.Right(2))`, `$.s.NotContains(@)`, `$.s.Contains(@)`, `$.s.ReplaceAll(@.Left(1),"X")`, `$.s.DoesMatchRegex(@.Left(1))`, `$.s.Prefix(@.Left(3))`, `$.s.NotPrefix(@.Right(1))`,
+		`$.s.ReplaceRegex(@.Left(2),"_")`, `$.s.Equal(@)`, `$.s.Suffix($.t)`, `$.xs[@.s.Prefix(@.Left(2))].Count()`, `$.xs[@.s.Suffix(@.Right(1))].p`, `$.xs.Select("$.s.Contains(@.Left(2))")`, `$.s.Left(@.Right(1).Equal("o").Not().IsEmpty().Equal(true).Count())`} {
+		c.Do(Case{Q: q, D: d, Cls: "round5/at-arguments", InDomain: true})
+	}
+}
+
+// struct types whose layout is not the list of their exported fields: a leading unexported field, an unexported twin of an exported
+// field declared before it (and after it), only unexported fields
+func r5StructLayouts(c *Ctx) {
+	d := tvMap("str", [][2]any{kv("f", tvUnexp("F", tvInt("int", "9"), tvInt("int", "3"), tvStr("kf"))), kv("d", tvUnexp("D", tvInt("int", "1"), tvStr("acc"), tvStr("n"))), kv("d2", tvUnexp("D2", tvStr("acc"), tvInt("int", "1"), tvStr("n"))),
+		kv("a", tvUnexp("A", tvInt("int", "1"), tvInt("int", "2"))), kv("o", tvUnexp("only", tvInt("int", "5"))), kv("z", tvUnexp("F", tvInt("int", "0"), tvInt("int", "0"), tvStr(""))),
+		kv("list", tvSlice(1, tvUnexp("D", tvInt("int", "1"), tvStr("x"), tvStr("n1")), tvUnexp("D2", tvStr("y"), tvInt("int", "2"), tvStr("n2")), tvUnexp("F", tvInt("int", "1"), tvInt("int", "2"), tvStr("k"))))})
+	for _, base := range []string{"$.f", "$.d", "$.d2", "$.a", "$.o", "$.z"} {
+		for _, fn := range []string{"IsEmpty()", "IsNotEmpty()", "IsNullOrEmpty()", "IsNotNullOrEmpty()", "IsNull()", "IsNotNull()", "Sum()", `Select("$").Count()`, "AsJSON()"} {
+			c.Do(Case{Q: base + "." + fn, D: d, Cls: "round5/struct-layouts/whole-object", InDomain: true})
+		}
+	}
+	for _, q := range []string{"$.d.id", "$.d.ID", "$.d.id?.IsNull()", "$.d.id.IsNull()", "$.d.Id?.IsNotNull()", "$.d2.id", "$.d2.id?.IsNull()", "$.d.name", "$.d.name?.IsNull()", "$.f.k", "$.f.a", "$.f.hidden", "$.f.hidden?.IsNull()",
+		"$.a.a", "$.a.A", "$.o.only", "$.o.only?.IsNull()", "$.list.id", "$.list.ID", "$.list.name", "$.list.k", "$.list[@.id?.IsNotNull()].Count()", "$.list[@.name?.IsNull()].Count()", `$.list.Select("$.id")`} {
+		c.Do(Case{Q: q, D: d, Cls: "round5/struct-layouts/keys", InDomain: true})
 	}
 }
